@@ -108,6 +108,12 @@ CHECKS = {
   text="~2450 bundles: all files compiled from C02's families, the rule matrix, annotations and 8 shape programs (self / mutual references, nested types shadowing top-level ones, overlapping package prefixes, optional message fields, multi-paragraph / unicode descriptions, patterns with escapes); all 37 hand-written protos under /repo/proto; and 7 option hosts x 55 extension values (strings with every escape / control / non-BMP rune, integer and float boundaries, +-inf, NaN, bytes, enums, nested / empty / repeated messages, repeated scalars, maps). Oracle: the printed text parses and links; package, imports, messages and nesting, fields (name, number, kind, type, cardinality, proto3 optional, JSON name, real-oneof membership, map types), enums and values, services and methods, every option value (re-serialised through one resolver) and leading comments (exact) are equal; printing the re-parsed file reproduces the text.",
   note="declaration order is not compared; 1 open known finding (blank-line layout of hand-written protos not stable on the second print)",
   design="3/C05"),
+ "C16": dict(
+  engine="E1",
+  technique=TECH_E1 + "; every program of the service / topic / entity / mixed / pipeline families is pushed through the whole chain compile -> print -> ReadFSImage -> APIFromImage -> APIFromSource -> J5 JSON -> BuildSwagger -> json.Marshal, each case in a crash / stack-overflow / hang isolated worker",
+  text="~800 programs: services (5 verbs x 6 path patterns x response / empty response / no response x 3 basePath forms), topics, entities (all single and pairwise deviations of the entity model), a multi-file package, every field type x {body, query, response, path} x {plain, array, map}, one list rule on one field x 13 field types x {top, nested, below a oneof arm, in a recursive item}, self- and mutually-recursive objects and oneofs in request, response, list items and entity data. Oracle: no stage errors, panics, overflows the stack or hangs; the client API JSON is valid; the client API lists exactly the declared methods (incl. the entity query and command services) with the declared verb and path; path / query / body split as the verb dictates; every path parameter occurs in the path; state entities carry name, primary key, events, state schema; every schema referenced anywhere in the client API is present in it.",
+  note="which fields a list request offers is recorded as an outcome class, not judged (not part of the statement)",
+  design="3/C16"),
 }
 
 PENDING = {
